@@ -22,12 +22,16 @@ import (
 	"path/filepath"
 	"sort"
 	"strings"
+	"sync/atomic"
 	"time"
+
+	"github.com/sirupsen/logrus"
 
 	"github.com/dolthub/go-mysql-server/sql"
 
 	"github.com/dolthub/dolt/go/libraries/doltcore/dbfactory"
 	"github.com/dolthub/dolt/go/libraries/doltcore/doltdb"
+	"github.com/dolthub/dolt/go/libraries/doltcore/sqle/cluster"
 	"github.com/dolthub/dolt/go/libraries/doltcore/sqle/dsess"
 	"github.com/dolthub/dolt/go/store/types"
 
@@ -43,6 +47,7 @@ type Step struct {
 }
 
 type Case struct {
+	Mode  string `json:"mode,omitempty"` // "" = push-on-write / read replica over a file remote; "cluster" = the cluster commit hook
 	Steps []Step `json:"steps"`
 }
 
@@ -56,7 +61,21 @@ type StepObs struct {
 }
 
 type Obs struct {
-	Steps []StepObs `json:"steps"`
+	Steps   []StepObs  `json:"steps"`
+	Cluster []ClusterO `json:"cluster,omitempty"`
+}
+
+// ClusterO: what is seen after one step of a cluster case. Roots are named by the index of the commit step that
+// produced them (0 = the root the primary had when the hook started); -1 = the standby store is still empty.
+type ClusterO struct {
+	Primary  int    `json:"primary"`
+	Standby  int    `json:"standby"`
+	Dirty    bool   `json:"dirty"`   // the hook is not caught up (nextHead != lastPushedHead)
+	Swapped  bool   `json:"swapped"` // the hook has been moved to the standby role by a transition
+	Retry    bool   `json:"retry"`   // a retry is scheduled (nextPushAttempt set) after a failed attempt
+	AckErr   string `json:"ackerr,omitempty"`
+	Refused  bool   `json:"refused,omitempty"` // transition refused: not caught up within the wait
+	StepErr  string `json:"err,omitempty"`
 }
 
 func branchName(b int) string {
@@ -140,10 +159,180 @@ func sqlHeads(s *util.Session, ids map[string]int) (Heads, string) {
 	return h, ""
 }
 
+// ---------------------------------------------------------------- the cluster commit hook, in-process
+// The real cluster.commithook (constructed through the verif export, background threads running) replicates the
+// primary repository's noms root to a second, initially empty, file-backed DoltDB that plays the standby's store.
+// Ops: start | commit (SQL commit on the primary, then the post-commit callback Execute; when the standby is
+// reachable the replication wait returned by Execute is awaited: that is the acknowledgement path) | down | up
+// (destDBF fails / works: only meaningful before the first successful connection) | await (block until caught up)
+// | transition (what Controller.gracefulTransitionToStandby does with the hook: wait for isCaughtUp, then
+// setRole(standby); refused when the wait times out).
+func runCluster(c Case) (any, error) {
+	ctx := context.Background()
+	defer fmt.Fprintln(os.Stdout)
+	prim, err := util.NewEnv(true)
+	if err != nil {
+		return nil, err
+	}
+	defer prim.Close()
+	ps, err := prim.NewSession()
+	if err != nil {
+		return nil, err
+	}
+	if err := ps.MustExec("create table t (pk int primary key, v int)", "call dolt_commit('-Am', 'init')"); err != nil {
+		return nil, err
+	}
+	src := prim.DEnv.DoltDB(ctx)
+	tmp, err := os.MkdirTemp("", "c45-cl-")
+	if err != nil {
+		return nil, err
+	}
+	defer os.RemoveAll(tmp)
+	destDir := filepath.Join(tmp, "standby")
+	if err := os.MkdirAll(destDir, 0o755); err != nil {
+		return nil, err
+	}
+	var dest *doltdb.DoltDB
+	for attempt := 0; attempt < 6; attempt++ {
+		dest, err = doltdb.LoadDoltDBWithParams(ctx, types.Format_DOLT, "file://"+destDir, nil, map[string]interface{}{dbfactory.DisableSingletonCacheParam: struct{}{}})
+		if err == nil || !strings.Contains(err.Error(), "lock timeout") {
+			break
+		}
+		time.Sleep(time.Duration(200*(attempt+1)) * time.Millisecond)
+	}
+	if err != nil {
+		return nil, err
+	}
+	defer dest.Close()
+	tempDir, err := prim.DEnv.TempTableFilesDir()
+	if err != nil {
+		return nil, err
+	}
+	var down atomic.Bool
+	destDBF := func(context.Context) (*doltdb.DoltDB, error) {
+		if down.Load() {
+			return nil, fmt.Errorf("standby unreachable (injected)")
+		}
+		return dest, nil
+	}
+	lgr := logrus.New()
+	lgr.SetLevel(logrus.PanicLevel)
+	ctxF := func(ctx context.Context) (*sql.Context, error) { return prim.Eng.NewLocalContext(ctx) }
+	hook := cluster.VerifNewCommitHook(lgr, prim.DBName, true, destDBF, src, tempDir, ctxF)
+	defer hook.Stop()
+
+	ids := map[string]int{}
+	r0, err := src.NomsRoot(ctx)
+	if err != nil {
+		return nil, err
+	}
+	ids[r0.String()] = 0
+	started, swapped := false, false
+	waitCaughtUp := func(d time.Duration) bool {
+		deadline := time.Now().Add(d)
+		for time.Now().Before(deadline) {
+			if _, _, cu, _, _ := hook.State(); cu {
+				return true
+			}
+			time.Sleep(10 * time.Millisecond)
+		}
+		return false
+	}
+	var o Obs
+	for i, st := range c.Steps {
+		var co ClusterO
+		switch st.Op {
+		case "down":
+			down.Store(true)
+		case "up":
+			down.Store(false)
+			if started {
+				waitCaughtUp(8 * time.Second) // the hook's own retry (nextPushAttempt, 1 s tick) picks the standby up
+			}
+		case "start":
+			hook.Start()
+			started = true
+			if !down.Load() {
+				waitCaughtUp(8 * time.Second)
+			} else {
+				time.Sleep(150 * time.Millisecond) // let the first attempt fail
+			}
+		case "commit":
+			if !started {
+				return nil, fmt.Errorf("commit before start")
+			}
+			if err := ps.MustExec(fmt.Sprintf("insert into t values (%d, %d)", i+1, i), "call dolt_commit('-Am', 'step')"); err != nil {
+				co.StepErr = err.Error()
+			}
+			if rt, err := src.NomsRoot(ctx); err == nil {
+				if _, ok := ids[rt.String()]; !ok {
+					ids[rt.String()] = i + 1
+				}
+			}
+			wait, err := hook.Execute(ctx, src)
+			if err != nil {
+				co.StepErr = err.Error()
+			}
+			if !swapped && !down.Load() {
+				// acknowledged write: block on the replication wait, as the engine does with
+				// @@dolt_cluster_ack_writes_timeout_secs > 0
+				if wait != nil {
+					wctx, cancel := context.WithTimeout(ctx, 8*time.Second)
+					if werr := wait(wctx); werr != nil {
+						co.AckErr = werr.Error()
+					}
+					cancel()
+				}
+				waitCaughtUp(8 * time.Second)
+			} else {
+				time.Sleep(150 * time.Millisecond)
+			}
+		case "await":
+			waitCaughtUp(8 * time.Second)
+		case "transition":
+			if waitCaughtUp(1500 * time.Millisecond) {
+				hook.SetPrimary(false)
+				swapped = true
+			} else {
+				co.Refused = true
+			}
+		default:
+			return nil, fmt.Errorf("unknown cluster op %q", st.Op)
+		}
+		pr, err := src.NomsRoot(ctx)
+		if err != nil {
+			return nil, err
+		}
+		co.Primary = ids[pr.String()]
+		co.Standby = -1
+		if err := dest.Rebase(ctx); err == nil {
+			if dr, err := dest.NomsRoot(ctx); err == nil && !dr.IsEmpty() {
+				id, ok := ids[dr.String()]
+				if !ok {
+					id = 9999 // a root the primary never had
+				}
+				co.Standby = id
+			}
+		}
+		_, _, cu, primaryRole, retry := hook.State()
+		co.Dirty = !cu
+		co.Swapped = !primaryRole
+		co.Retry = retry
+		if !started { // nothing is observed before the hook runs
+			co.Dirty, co.Retry = false, false
+		}
+		o.Cluster = append(o.Cluster, co)
+	}
+	return o, nil
+}
+
 func Run(raw json.RawMessage) (any, error) {
 	var c Case
 	if err := json.Unmarshal(raw, &c); err != nil {
 		return nil, err
+	}
+	if c.Mode == "cluster" {
+		return runCluster(c)
 	}
 	ctx := context.Background()
 	// push failures are written to the process's stdout without a newline; terminate that text before the kernel
